@@ -459,7 +459,7 @@ class PVLEncoder(object):
         """Returns true if *s* must be quoted according to this
         encoder's grammar, false otherwise.
         """
-        if any(c in self.grammar.whitespace for c in s):
+        if len(s) == 0 or any(c in self.grammar.whitespace for c in s):
             return True
 
         if s in self.grammar.reserved_keywords:
